@@ -263,7 +263,8 @@ LEVEL_TEXT = (
     "Exploration: the real Composition.to_molar/to_weight are executed on thousands of (molar-mass pair, fraction) "
     "groups per run, including fractions within 1e-15 of 0 and 1 and molar-mass ratios up to 1e3, and every result is "
     "compared with the exact rational image, so any formula slip larger than 8 ulp, a broken fixed point, a "
-    "non-monotone step or an accepted out-of-range fraction in the sampled domain is seen. Held means: no oracle "
+    "non-monotone step or an accepted out-of-range fraction in the sampled domain is seen; returned objects are re-assigned "
+    "by the caller before the conversion is repeated, and a burst of concurrent conversions must reproduce the serial values. Held means: no oracle "
     "failed on the executions of this run."
 )
 LEVEL_NOTE = "Trusted: fractions.Fraction, the sampling of the domain (seeded, reported in the evidence); nothing is claimed for inputs that were not generated."
